@@ -21,7 +21,7 @@ RULE = ("five relations, each with its own generator. (1) totality: any 112-bit 
         "false, label absent. (5) is50or60: payloads satisfying both layouts by construction, or only one; None unless both; the named interpretation is the one whose "
         "velocity vector is nearest the reference (1 m/s margin, ambiguous cases counted not judged). non-trivial = payload accepted by >= 1 predicate, every soundness "
         "case, every is50or60 case where both apply"
-        ' Also: DF20 altitudes from -1000 to 50000 ft with the edge of the 20 kt IAS/Mach rule, BDS 5,3 status rules (is53), helper calls on the same string first, 10 000 real DF20/21 replies labelled by the reference rules (leg corpus).')
+        ' Also: DF20 altitudes from -1000 to 50000 ft with the edge of the 20 kt IAS/Mach rule, BDS 5,3 status rules (is53), is50or60 reference altitudes from -1000 to 50000 ft incl. -1, 0, 1 as ints and floats, helper calls on the same string first, 10 000 real DF20/21 replies labelled by the reference rules (leg corpus).')
 ASSUMPTIONS = ["reference rules ref/registers.py: envelope as quoted in the property; payloads outside the envelope or with only a sign bit set under a clear status are not judged",
                "BDS 3,0 completeness uses the conservative subset TTI != 3 and ARA bits 16-22 < 48", "IAS/Mach consistency judged with an 18 kt margin (rule is 20 kt)"]
 
@@ -326,7 +326,9 @@ def s_both(draw):
     u = lambda a, b: draw(gen.uint(a, b))
     P = D.place
     mb = 0
-    alt_ref = draw(st.one_of(gen.ufloat(0, 45000), gen.ufloat(36089, 45000), st.sampled_from([0.0, 35000.0, 45000.0])))
+    alt_ref = draw(st.one_of(gen.ufloat(0, 45000), gen.ufloat(36089, 45000), gen.ufloat(-1000, 50000), st.sampled_from([0.0, 35000.0, 45000.0]),
+                             # small and negative reference altitudes (an airport below sea level, a pressure altitude on a high-pressure day), whole numbers as ints
+                             st.sampled_from([-1.0, -1, 1, 0, -25.0, -100, -1000.0, 50000, 14000, -2.0, 1.0])))
     # bits 1-12: roll (1,2,3-11) == heading (1,2,3-12) ; bit 12 = track status
     if u(0, 5):
         v = u(-284, 284)
